@@ -37,13 +37,13 @@ def build(sig, method=False):
     return ns["f"], names, src, None
 
 
-def call_of(st, names):
+def call_of(st, names, foreign="zz"):
     args = tuple(("pos", j) for j in range(st["npos"]))
-    kwargs = {("zz" if i == 0 else names[i - 1]): ("kw", i) for i in st["kw"]}
+    kwargs = {(foreign if i == 0 else names[i - 1]): ("kw", i) for i in st["kw"]}
     return args, kwargs
 
 
-def expected(st, names):
+def expected(st, names, foreign="zz"):
     """the spec's mapping in filter_args vocabulary ('*' / '**' for the variadic parameters)"""
     sig = st["sig"]; exp = {}
     for i, (p, b) in enumerate(zip(sig, st["res"][1]), 1):
@@ -52,7 +52,7 @@ def expected(st, names):
         elif b[0] == "kw": v = ("kw", b[1])
         elif b[0] == "dflt": v = ("dflt", b[1])
         elif b[0] == "star": v = [("pos", j) for j in range(b[1], b[2])]
-        else: v = {("zz" if j == 0 else names[j - 1]): ("kw", j) for j in b[1]}
+        else: v = {(foreign if j == 0 else names[j - 1]): ("kw", j) for j in b[1]}
         exp["*" if p["k"] == "VA" else "**" if p["k"] == "VK" else nm] = v
     return exp
 
